@@ -227,7 +227,7 @@ PROPS = {
         not_covered=['the laws of the double order (IEEE comparison is uninterpreted: only that doubles are compared lhs to rhs is pinned)',
                      'list and map equality ARE under contract for containers whose element / value pairs are decided by the scalar rules (lists: different lengths are never equal, equal exactly when every pair at the same position is; maps: always a bool, different key sets are never equal, equal exactly when every value pair under the same key is); for containers holding doubles, containers, dyn objects or failures only "bool or error" (maps: bool); std::iter::zip and HashMap::into_iter are materialized stand-ins (zip: pairs of equal indices in order up to the shorter; into_iter: every entry once in an unspecified order), HashMap clone / remove / is_empty are trampolines with the assumed std behaviour',
                      'laws of the string/bytes/timestamp/duration orders are std\'s and chrono\'s Ord (assumed)',
-                     'sort: that the result is an ORDERED PERMUTATION is not proved (it needs ord as a function and its transitivity, which hold only for mutually comparable elements); proved: no panic, the length, the comparison (ord of the left against the right element, failures read as less), the direction and stability of every merge step'],
+                     'sort: that the result is ORDERED is not proved (it needs ord as a function and its transitivity, which hold only for mutually comparable elements); proved: no panic, the result is a permutation of the list, the comparison (ord of the left against the right element, failures read as less), the direction and stability of every merge step'],
         assumptions=[],
     ),
     'C05': dict(
